@@ -411,7 +411,7 @@ def run(tier, replay=None):
     if replay:
         print(json.dumps(json.load(open(replay)), indent=1)[:3000])
         return 0
-    proof = common.prove(report, "C06", ["alloc"], extra_targets=["Run/C06Run.vo"])
+    proof = common.prove(report, "C06", ["alloc", "dispatcher"], extra_targets=["Run/C06Run.vo"])
     ok, log = common.coq_make(["Run/C06Run.vo"])
     if not ok:
         report.violation({"kind": "broken-obligation", "obligation": "Run/C06Run.vo does not build against the regenerated allocator", "detail": log[-1500:], "also": proof.get("broken")}, False, tag="modelbuild")
@@ -424,11 +424,6 @@ def run(tier, replay=None):
     if race is not None:
         report.violation({"kind": "counterexample", "what": SPEC_CODES[31], "schedule": "thread A runs get_next_system_counter() up to the given bytecode, thread B runs it completely, A resumes",
                           **race, "broken_obligation": proof.get("broken")}, True, tag="race")
-    elif not proof["ok"]:
-        ok2, out = common.coq_eval("c06_race", HEADER, "Eval vm_compute in (alloc_locked, find_race (length alloc_prog)).")
-        flat = " ".join(out.split())
-        report.violation({"kind": "broken-obligation", "obligation": proof["broken"], "model_search": flat[-400:],
-                          "searched": "every single preemption point of two threads on the implementation: no duplicate"}, "Some" in flat and ok2, tag="proof")
     # 2. routing under concurrency, ordering, allocator values
     lits, raws = [], []
     wedged = []
@@ -480,6 +475,13 @@ def run(tier, replay=None):
 
     common.guarded(routing, "routing / ordering scenario", wedged, 600.0)
     common.report_wedged(report, wedged, proof)
+    if not proof["ok"] and not report.violations:
+        # a proof obligation no longer checks and the implementation showed no failing input above: search the model
+        ok2, out = common.coq_eval("c06_race", HEADER, "Eval vm_compute in (alloc_locked, find_race (length alloc_prog)).")
+        flat = " ".join(out.split())
+        report.violation({"kind": "broken-obligation", "obligation": proof["broken"], "model_search": flat[-400:],
+                          "searched": "every single preemption point of two allocating threads, the routing/ordering scenarios and the forced dispatcher interleaving on the implementation: nothing failed"},
+                         "Some" in flat and ok2, tag="proof")
     alits, araw = alloc_cases(rnd)
     lits += alits
     total, unique = stress_alloc(8, 1500 if tier == "quick" else 20000)
